@@ -232,6 +232,12 @@ func builtinStringReplace(call FunctionCall) Value {
 	}
 
 	found := search.FindAllSubmatchIndex(target, find)
+	if global && searchObject != nil {
+		// Searching is done "in the same manner as in String.prototype.match,
+		// including the update of searchValue.lastIndex" (15.5.4.11): the
+		// last exec of that loop always fails, which resets lastIndex.
+		searchObject.put("lastIndex", intValue(0), true)
+	}
 	if found == nil {
 		return stringValue(string(target)) // !match
 	}
@@ -274,10 +280,6 @@ func builtinStringReplace(call FunctionCall) Value {
 
 	if lastIndex != len(target) {
 		result = append(result, target[lastIndex:]...)
-	}
-
-	if global && searchObject != nil {
-		searchObject.put("lastIndex", intValue(lastIndex), true)
 	}
 
 	return stringValue(string(result))
